@@ -64,6 +64,28 @@ Theorem C13_primary_perm_invariant : forall rho1 rho2 ops, emit rho1 ops = emit 
 Proof. exact emit_perm_invariant. Qed.
 Print Assumptions C13_primary_perm_invariant.
 
+(* the specifiers of one pkg-config requirement (Requires / Conflicts fields of a written .pc file) come out of a set
+   whose enumeration follows the string hashes of the interpreter run: the repaired Requirement.split writes them sorted
+   by their text, so every enumeration of the same set gives the same field - and nothing is lost or invented; as first
+   written the field followed the enumeration (defect repaired by commit 028cc9e) *)
+From BFG Require Import Misc.SortDeterm Misc.SortDetermProofs.
+Theorem C13_requirement_specs_order : forall e1 e2,
+  Permutation e1 e2 -> split_texts true e1 = split_texts true e2 /\ Permutation e1 (split_texts true e1).
+Proof. intros e1 e2 H. split; [exact (s_sort_perm e1 e2 H)|exact (s_sort_is_perm e1)]. Qed.
+Print Assumptions C13_requirement_specs_order.
+
+Theorem C13_requirement_specs_order_unrepaired_refuted : exists e1 e2,
+  Permutation e1 e2 /\ split_texts false e1 <> split_texts false e2.
+Proof.
+  exists [([60; 50]%N : str); ([62; 61; 49]%N : str)], [([62; 61; 49]%N : str); ([60; 50]%N : str)]. split; [apply perm_swap|]. vm_compute. discriminate.
+Qed.
+Print Assumptions C13_requirement_specs_order_unrepaired_refuted.
+
+Example C13_requirement_specs_nonvacuous :
+  split_texts true [([33; 61; 49; 46; 53]%N : str); ([60; 50]%N : str); ([62; 61; 49]%N : str); ([33; 61; 49; 46; 54]%N : str)] = [([33; 61; 49; 46; 53]%N : str); ([33; 61; 49; 46; 54]%N : str); ([60; 50]%N : str); ([62; 61; 49]%N : str)] /\
+  split_texts true [([62; 61; 49]%N : str); ([33; 61; 49; 46; 54]%N : str); ([60; 50]%N : str); ([33; 61; 49; 46; 53]%N : str)] = [([33; 61; 49; 46; 53]%N : str); ([33; 61; 49; 46; 54]%N : str); ([60; 50]%N : str); ([62; 61; 49]%N : str)].
+Proof. split; vm_compute; reflexivity. Qed.
+
 (* Path.abspath computes the directory the spelling denotes from the working directory (component level,
    with . and .. and empty components anywhere) ... *)
 Theorem C13_abspath_denotes : forall cwd abs s, abspath_c cwd abs s = denote cwd abs s.
